@@ -42,10 +42,10 @@ for kind in ["bdd", "bcdd"]:
                 bounds="one recursion step from an arbitrary well-formed %s: <=5 pre-existing nodes, 6 slots, 3 levels, capacity symbolic" % K)
     add(kind, "proofs::lemma_canonical", ["C01"], timeout=1500,
         bounds="every well-formed %s with <=5 nodes over 3 levels; all pairs of edges" % K)
-    add(kind, "proofs::step_ite", BOOL_STEP_PROPS, timeout=1800,
-        bounds="one recursion step of ite: <=3 pre-existing nodes, 6 slots, 3 levels")
-    add(kind, "proofs::step_ite_n4", BOOL_STEP_PROPS, tier="thorough", timeout=3600, mem_gb=16, mem_reserve=12,
-        bounds="one recursion step of ite: <=4 pre-existing nodes, 6 slots, 3 levels")
+    add(kind, "proofs::step_ite", BOOL_STEP_PROPS, timeout=1800, mem_reserve=8,
+        bounds="one recursion step of ite (delegated terminal cases answered by the oracle): <=4 pre-existing nodes, 6 slots, 3 levels")
+    add(kind, "proofs::step_ite_n5", BOOL_STEP_PROPS, tier="thorough", timeout=3600, mem_gb=16, mem_reserve=12,
+        bounds="one recursion step of ite: <=5 pre-existing nodes, 6 slots, 3 levels")
     add(kind, "proofs::step_restrict", ["XRESTRICT"], timeout=1800,
         bounds="one recursion step of restrict: <=4 nodes, 3 levels, literal cube with <=2 literals")
     add(kind, "proofs::step_restrict_l3", ["XRESTRICT"], tier="thorough", timeout=3000,
@@ -66,13 +66,15 @@ for kind in ["bdd", "bcdd"]:
 
 # ---------------------------------------------------------------- ZBDD
 CRATES["zbdd"] = {}
-ZB = "one recursion step from an arbitrary well-formed ZBDD: tautology chain (3 nodes, built by the real ZBDDCache code) + <=3 symbolic nodes, 8 slots, 3 levels, capacity symbolic"
+ZB = "one recursion step from an arbitrary well-formed ZBDD: tautology chain (3 nodes, built by the real ZBDDCache code) + <=2 symbolic nodes (thorough: 3), 8 slots, 3 levels, capacity symbolic"
 for op in ["union", "intsec", "diff"]:
     add("zbdd", "proofs::step_" + op, ["C09", "C01", "C03", "C05", "C06", "C14"], timeout=1500, bounds=ZB)
 for op in ["subset0", "subset1", "change"]:
     add("zbdd", "proofs::step_" + op, ["C09", "C01", "C03", "C05", "C06", "C14"], timeout=1500, bounds=ZB + "; arbitrary variable order")
-for op in ["and", "or", "xor", "nand", "nor", "equiv", "imp", "imp_strict", "not", "ite"]:
+for op in ["and", "or", "xor", "imp", "imp_strict", "not", "ite"]:
     add("zbdd", "proofs::step_" + op, ["C02", "C09", "C01", "C03", "C05", "C06", "C14"], timeout=1800, bounds=ZB)
+for op in ["union", "intsec", "diff", "xor", "subset0", "subset1", "change"]:
+    add("zbdd", "proofs::step_" + op + "_n3", ["C09", "C01", "C03", "C05", "C06", "C14"], tier="thorough", timeout=3600, mem_reserve=12, mem_gb=14, bounds=ZB)
 add("zbdd", "proofs::base_constructors", ["C09", "C02", "C03"], timeout=1500,
     bounds="empty/base/f/t, singleton, var, make_node on an arbitrary ZBDD with <=2 symbolic nodes, arbitrary variable order")
 add("zbdd", "proofs::lemma_canonical", ["C01"], timeout=1500, bounds="every well-formed ZBDD: tautology chain + <=4 nodes over 3 levels")
@@ -81,7 +83,9 @@ add("zbdd", "proofs::lemma_canonical", ["C01"], timeout=1500, bounds="every well
 CRATES["mtbdd"] = {}
 MB = "one recursion step from an arbitrary well-formed MTBDD: <=3 pre-existing nodes, 6 slots, 2 levels, terminal table with <=3 symbolic distinct values and symbolic capacity; terminal algebra = 8-bit instance of the I64 algebra (the lifting is independent of the operand width)"
 for op in ["add", "sub", "mul", "div", "min", "max", "ite"]:
-    add("mtbdd", "proofs::step_" + op, ["C10", "C01", "C03", "C05", "C06", "C14"], timeout=1800, bounds=MB)
+    add("mtbdd", "proofs::step_" + op, ["C10", "C01", "C03", "C05", "C06", "C14"], timeout=1800, bounds=MB.replace("<=3 pre-existing", "<=2 pre-existing"))
+    if op != "ite":
+        add("mtbdd", "proofs::step_" + op + "_n3", ["C10", "C01", "C03", "C05", "C06", "C14"], tier="thorough", timeout=3600, bounds=MB)
 add("mtbdd", "proofs::base_constant_var", ["C10", "C03", "C05", "C14"], timeout=900, bounds="constant(v) and var(v) on an arbitrary MTBDD with <=2 nodes")
 
 # ---------------------------------------------------------------- TDD (C11)
